@@ -461,7 +461,7 @@ pub fn eval_unit_name(
             },
             BinOpType::Add | BinOpType::Sub => {
                 let (left_unit, left) = eval_unit_name(ctx, &binop.left)?;
-                let (right_unit, _right) = eval_unit_name(ctx, &binop.right)?;
+                let (right_unit, right) = eval_unit_name(ctx, &binop.right)?;
 
                 if left_unit != right_unit {
                     return Err(QueryError::generic(
@@ -470,7 +470,13 @@ pub fn eval_unit_name(
                             .to_string(),
                     ));
                 }
-                Ok((left_unit, left))
+                // Both sides name the same unit, so the constants combine.
+                let value = if binop.op == BinOpType::Add {
+                    &left + &right
+                } else {
+                    &left - &right
+                };
+                Ok((left_unit, value))
             }
             BinOpType::Frac => {
                 let (left_unit, left) = eval_unit_name(ctx, &binop.left)?;
@@ -505,41 +511,47 @@ pub fn eval_unit_name(
                         "Exponents must be dimensionless".to_string(),
                     ));
                 }
-                let right = right.value.to_f64();
                 let (left_unit, left_value) = eval_unit_name(ctx, &binop.left)?;
-                if right < 0.0
-                    && (left_value == Numeric::zero() || left_value == Numeric::Float(0.0))
-                {
-                    return Err(QueryError::generic("Division by zero".to_string()));
-                }
-                let mut unit = BTreeMap::new();
-                for (k, v) in left_unit {
-                    let v = v
-                        .checked_mul(right as isize)
-                        .ok_or_else(|| QueryError::generic("Exponent is too large".to_string()))?;
-                    if v != 0 {
-                        unit.insert(k, v);
-                    }
-                }
-                Ok((unit, left_value.pow(right as i32)))
+                // Raise the constant and the named units the way a value is
+                // raised, treating each name as a base unit, so that the
+                // displayed unit stands for the same thing as the value.
+                let left = Number {
+                    value: left_value,
+                    unit: left_unit
+                        .into_iter()
+                        .map(|(k, v)| (BaseUnit::new(&k), v as i64))
+                        .collect(),
+                };
+                let res = left.pow(right).map_err(QueryError::generic)?;
+                Ok((
+                    res.unit
+                        .iter()
+                        .map(|(k, &v)| (k.to_string(), v as isize))
+                        .collect(),
+                    res.value,
+                ))
             }
             BinOpType::ShiftL | BinOpType::ShiftR => Err(QueryError::generic(
                 "Shifts are not allowed in the right hand side of conversions".to_string(),
             )),
             BinOpType::Mod => {
                 let (left_unit, left) = eval_unit_name(ctx, &binop.left)?;
-                let (right_unit, _right) = eval_unit_name(ctx, &binop.right)?;
+                let (right_unit, right) = eval_unit_name(ctx, &binop.right)?;
 
                 if left_unit != right_unit {
                     return Err(QueryError::generic(
                         "Modulo of values with differing dimensions is not meaningful".to_string(),
                     ));
                 }
-                Ok((left_unit, left))
+                let value = Number::new(left)
+                    .rem(&Number::new(right))
+                    .map_err(QueryError::generic)?
+                    .value;
+                Ok((left_unit, value))
             }
             BinOpType::And | BinOpType::Or | BinOpType::Xor => {
                 let (left_unit, left) = eval_unit_name(ctx, &binop.left)?;
-                let (right_unit, _right) = eval_unit_name(ctx, &binop.right)?;
+                let (right_unit, right) = eval_unit_name(ctx, &binop.right)?;
 
                 if !left_unit.is_empty() || !right_unit.is_empty() {
                     return Err(QueryError::generic(format!(
@@ -547,7 +559,15 @@ pub fn eval_unit_name(
                         binop.op
                     )));
                 }
-                Ok((left_unit, left))
+                let (left, right) = (Number::new(left), Number::new(right));
+                let value = match binop.op {
+                    BinOpType::And => left.and(&right),
+                    BinOpType::Or => left.or(&right),
+                    _ => left.xor(&right),
+                }
+                .map_err(QueryError::generic)?
+                .value;
+                Ok((left_unit, value))
             }
         },
         Expr::Mul { ref exprs } => {
